@@ -156,12 +156,38 @@ static void run_bytes(void)
 		s[i] = ALPHA[xp_choose(12, XP_SCENARIO, "byte")];
 		snprintf(hex + 3 * i, 4, "%02x ", s[i]);
 	}
-	int follow = xp_choose(2, XP_SCENARIO, "then"); /* 0: FIN after the bytes; 1: a well-formed request follows */
-	snprintf(what, sizeof(what), "bytes [%s] as %s, then %s", hex, MD_NAME[mode], follow ? "a well-formed request" : "FIN");
+	int follow = xp_choose(4, XP_SCENARIO, "then"); /* 0: FIN after the bytes; 1: a well-formed request follows; 2 / 3: the bytes (and the FIN) are already queued when the daemon accepts the connection */
+	snprintf(what, sizeof(what), "bytes [%s] as %s, %s", hex, MD_NAME[mode], follow == 1 ? "then a well-formed request" : follow == 0 ? "then FIN" : follow == 2 ? "queued before the daemon accepts the connection, then FIN" : "queued together with the FIN before the daemon accepts the connection");
 	struct sim_opts o = {0};
 	jx_boot(&o);
 	bystander_setup();
 	struct bytebuf b = {0};
+	if (follow >= 2) {
+		if (mode != MD_RAW_STREAM && mode != MD_UDS_STREAM && mode != MD_HTTP_STREAM) {
+			xp_end_run(); /* the other forms need a completed handshake or frame first */
+		}
+		A = cl_open(CL_BYTES, mode == MD_HTTP_STREAM ? ROLE_HTTP : mode == MD_UDS_STREAM ? ROLE_UDS : ROLE_JET, ORG_DEFAULT);
+		if (len > 0) {
+			sim_client_send(A, s, (size_t)len);
+		}
+		if (follow == 3) {
+			sim_client_fin(A);
+		}
+		jx_settle();
+		if (follow == 2 && !sim_conn_closed_by_daemon(A)) {
+			sim_client_fin(A);
+			jx_settle();
+		}
+		if (!sim_conn_closed_by_daemon(A)) {
+			fail6("connection-not-released", "the client has gone but the daemon keeps the connection open");
+		}
+		aftermath();
+		xp_nontrivial();
+		xp_transition();
+		xp_outcome(hash_mix(hash64(sim_conn_output(A)->p, sim_conn_output(A)->len, 3), (uint64_t)mode));
+		xp_state(hash_mix(hash64(s, (size_t)len, 5), (uint64_t)mode * 4 + (uint64_t)follow));
+		return;
+	}
 	switch (mode) {
 	case MD_RAW_STREAM:
 		A = jx_open(CL_RAW);
@@ -210,7 +236,7 @@ static void run_bytes(void)
 	}
 	xp_transition();
 	xp_outcome(hash_mix(hash64(sim_conn_output(A)->p, sim_conn_output(A)->len, 3), (uint64_t)mode));
-	xp_state(hash_mix(hash64(s, (size_t)len, 5), (uint64_t)mode * 2 + (uint64_t)follow));
+	xp_state(hash_mix(hash64(s, (size_t)len, 5), (uint64_t)mode * 4 + (uint64_t)follow));
 }
 
 /* ------------------------------------------------------------------ section 1: structural mutations */
@@ -697,6 +723,6 @@ const struct driver drv_c06 = {
     .name = "c06",
     .property = "C06",
     .run = run,
-    .rule = "section 0: every byte string of length <= maxlen over {{ } [ ] \" : , 0 00 ff space a} x 6 endpoint forms (raw tcp stream, unix socket stream, payload of a raw message, payload of a websocket text message, http listener stream, websocket stream after the upgrade) x {FIN, well-formed request follows}; section 1: 24 JSON-RPC corpus messages (every method with its optional members, responses to unknown and to live routed ids, a batch) x every node x {delete, duplicate, duplicate as null, rename upper-case, rename prefixed, 16 retypings, 11 string lengths incl. 97..101 and the longest that fits / one more, nesting 50/150/240} x 2 transports, each followed by 8 trigger requests, a routed call, disconnect; section 2: the complete single-frame product opcode(16) x FIN x RSV(8) x MASK x length encoding(3) x 16 payload lengths (0..65536, 2^63, 2^63-1); section 3: all ordered pairs over a 26-frame alphabet x 3 deliveries (one event per frame, one read, two connections in one batch); section 4: all ordered triples over 10 frames x 2 deliveries; section 5: each of the 26 frames / 5 raw inputs sent 1..3 times by a peer whose own send path is blocked (window 0 with a full write buffer, every writev failing, window 0 with room left); deviation budget 1: every split point (<= 300) of the hostile bytes, queued at once or after a would-block; oracle: ASan+UBSan (no crash / report), bystander untouched and served, listeners accept, resources at baseline, descriptor hygiene, clean SIGTERM exit; non-trivial = every non-empty input",
+    .rule = "section 0: every byte string of length <= maxlen over {{ } [ ] \" : , 0 00 ff space a} x 6 endpoint forms (raw tcp stream, unix socket stream, payload of a raw message, payload of a websocket text message, http listener stream, websocket stream after the upgrade) x {FIN, well-formed request follows; for the three stream forms also: bytes already queued when the daemon accepts the connection, with or without the FIN in that same batch}; section 1: 24 JSON-RPC corpus messages (every method with its optional members, responses to unknown and to live routed ids, a batch) x every node x {delete, duplicate, duplicate as null, rename upper-case, rename prefixed, 16 retypings, 11 string lengths incl. 97..101 and the longest that fits / one more, nesting 50/150/240} x 2 transports, each followed by 8 trigger requests, a routed call, disconnect; section 2: the complete single-frame product opcode(16) x FIN x RSV(8) x MASK x length encoding(3) x 16 payload lengths (0..65536, 2^63, 2^63-1); section 3: all ordered pairs over a 26-frame alphabet x 3 deliveries (one event per frame, one read, two connections in one batch); section 4: all ordered triples over 10 frames x 2 deliveries; section 5: each of the 26 frames / 5 raw inputs sent 1..3 times by a peer whose own send path is blocked (window 0 with a full write buffer, every writev failing, window 0 with room left); deviation budget 1: every split point (<= 300) of the hostile bytes, queued at once or after a would-block; oracle: ASan+UBSan (no crash / report), bystander untouched and served, listeners accept, resources at baseline, descriptor hygiene, clean SIGTERM exit; non-trivial = every non-empty input",
     .assumptions = "the input space of C06 is infinite: exhaustive only over the stated shapes|the sanitizers detect invalid accesses to heap/stack/global objects and the UB classes of -fsanitize=undefined, not every conceivable undefined behaviour",
 };
